@@ -58,7 +58,7 @@ class Outcome(object):
 
 class Sub(object):
     def __init__(self, run, strategy=None, enum=None, quick=100, thorough=1000,
-                 quick_shards=4, doc="", max_seconds=None):
+                 quick_shards=4, doc="", max_seconds=None, case_timeout=None):
         self.run = run
         self.strategy = strategy  # callable(tier) -> hypothesis strategy
         self.enum = enum  # callable(tier, shard, nshards) -> iterator of cases
@@ -67,6 +67,7 @@ class Sub(object):
         self.quick_shards = quick_shards
         self.doc = doc
         self.max_seconds = max_seconds  # per shard budget (dict tier->s or number)
+        self.case_timeout = case_timeout  # watchdog for one case (default WV_CASE_TIMEOUT)
 
     def budget_s(self, tier):
         if isinstance(self.max_seconds, dict):
@@ -145,9 +146,10 @@ def execute(sub, case):
     import signal
     out = Outcome()
     use_alarm = hasattr(signal, "SIGALRM") and CASE_TIMEOUT_S > 0
+    limit = max(CASE_TIMEOUT_S, getattr(sub, "case_timeout", None) or 0)
     if use_alarm:
         signal.signal(signal.SIGALRM, _alarm)
-        signal.alarm(CASE_TIMEOUT_S)
+        signal.alarm(limit)
     try:
         sub.run(case, out)
     except CaseTimeout as e:
@@ -155,7 +157,7 @@ def execute(sub, case):
         tb = traceback.extract_tb(e.__traceback__)
         wf = [f for f in tb if _is_whoosh_frame(f)]
         if not wf:
-            raise HarnessError("case exceeded %ds outside whoosh code" % CASE_TIMEOUT_S)
+            raise HarnessError("case exceeded %ds outside whoosh code" % limit)
         names = [f.name for f in wf[-3:]]
         out.fail("hang:%s:%s" % (os.path.basename(wf[-1].filename), ">".join(names[:2])),
                  "".join(traceback.format_list(tb))[-2500:])
